@@ -28,6 +28,7 @@ import (
 	"sort"
 	"strings"
 	"sync"
+	"sync/atomic"
 	"testing"
 	"time"
 
@@ -60,6 +61,10 @@ type c24Req struct {
 	Short    bool   `json:"short,omitempty"`   // /1/ endpoints only: send the key in X-Hny-Team
 	NoTrace  bool   `json:"notrace,omitempty"` // /1/ endpoints and logs: event without a trace id (goes upstream directly, not through the collector)
 	Msgpack  bool   `json:"msgpack,omitempty"` // /1/ endpoints: msgpack body
+	// Auth: how Honeycomb's /1/auth answers WHILE this request is served ("" =
+	// healthy; "401","429","403","404","500","503","hangup","garbage" = the lookup
+	// service fails that way for every key).
+	Auth string `json:"auth,omitempty"`
 }
 
 type c24Case struct {
@@ -222,6 +227,35 @@ func c24TableCases() []c24Case {
 				}
 				out = append(out, c)
 			}
+		}
+	}
+	return out
+}
+
+// ways the lookup service can fail (non-401 4xx first: they carry a JSON body)
+var c24AuthFailures = []string{"429", "403", "404", "429", "400", "401", "500", "503", "hangup", "garbage"}
+
+// c24HistoryCases: hand-kept histories (replays/C24/history-*.json). For every
+// way the lookup can fail and every endpoint: a key that is authorised only
+// through its key id is first seen while /1/auth fails, then again (same
+// endpoint, then another one) while it is healthy.
+func c24HistoryCases() map[string]c24Case {
+	out := map[string]c24Case{}
+	for _, cfg := range []struct {
+		name, mode string
+		aolk       bool
+	}{{"aolk-none", "none", true}, {"listedonly", "listedonly", false}, {"unlisted", "unlisted", false}} {
+		for _, fail := range []string{"429", "403", "404", "401", "500", "503", "hangup", "garbage"} {
+			c := c24Case{Mode: cfg.mode, AOLK: cfg.aolk, SendKey: c24CanonSend, ReceiveKeys: []string{c24CanonListed}, KeyIDs: c24CanonKeyIDs()}
+			for i, ep := range c24Endpoints {
+				k := fmt.Sprintf("hcaik_%02dhist%s", i, strings.Repeat("histkey", 8)[:52])
+				id := fmt.Sprintf("hcaik_%02dhistid", i)
+				c.KeyIDs[k] = id
+				c.ReceiveKeyIDs = append(c.ReceiveKeyIDs, id)
+				c.Reqs = append(c.Reqs, c24Req{Endpoint: ep, Key: k, Auth: fail}, c24Req{Endpoint: ep, Key: k},
+					c24Req{Endpoint: c24Endpoints[(i+3)%len(c24Endpoints)], Key: k})
+			}
+			out[fmt.Sprintf("history-%s-after-%s", cfg.name, fail)] = c
 		}
 	}
 	return out
@@ -392,6 +426,36 @@ func genC24(t *rapid.T) c24Case {
 		return r
 	})
 	c.Reqs = rapid.SliceOfN(reqGen, 1, 10).Draw(t, "reqs")
+	// the lookup service (/1/auth) is not always healthy: some requests are served
+	// while it fails ...
+	for i := range c.Reqs {
+		if rapid.IntRange(0, 5).Draw(t, "auth-failing") == 5 {
+			c.Reqs[i].Auth = rapid.SampledFrom(c24AuthFailures).Draw(t, "auth-failure")
+		}
+	}
+	// ... and half of the cases start with an aimed history: a key (preferably one
+	// authorised through its key id) meets a failing lookup first and comes back
+	// when the service is healthy again
+	if rapid.Bool().Draw(t, "lookup-failure-history") {
+		var cands []string
+		cands = append(cands, byID...)
+		if len(cands) == 0 || rapid.IntRange(0, 3).Draw(t, "history-other-key") == 0 {
+			for _, k := range pool {
+				if k != "" && !c24IsLegacy(k) {
+					cands = append(cands, k)
+				}
+			}
+		}
+		if len(cands) > 0 {
+			k := cands[rapid.IntRange(0, len(cands)-1).Draw(t, "history-key")]
+			hist := []c24Req{{Endpoint: rapid.SampledFrom(c24Endpoints).Draw(t, "history-first-endpoint"), Key: k,
+				Auth: rapid.SampledFrom(c24AuthFailures).Draw(t, "history-failure")}}
+			for i, n := 0, rapid.IntRange(1, 2).Draw(t, "history-n-after"); i < n; i++ {
+				hist = append(hist, c24Req{Endpoint: rapid.SampledFrom(c24Endpoints).Draw(t, "history-endpoint"), Key: k})
+			}
+			c.Reqs = append(hist, c.Reqs...)
+		}
+	}
 	return c
 }
 
@@ -598,7 +662,10 @@ func execC24(c c24Case) vkit.Result {
 	if len(c.ReceiveKeyIDs) > 0 {
 		ak["ReceiveKeyIDs"] = c.ReceiveKeyIDs
 	}
-	sut, err := authStartSUT(authSUTOpts{Config: map[string]any{"AccessKeys": ak}, KeyIDs: c.KeyIDs})
+	var authMode atomic.Value // how /1/auth answers right now (set before each request)
+	authMode.Store("")
+	sut, err := authStartSUT(authSUTOpts{Config: map[string]any{"AccessKeys": ak}, KeyIDs: c.KeyIDs,
+		AuthScript: func(string) string { return authMode.Load().(string) }})
 	if err != nil {
 		if strings.Contains(err.Error(), errAuthConfigRejected.Error()) {
 			res.Class("config-rejected-by-validator(out-of-domain)")
@@ -628,8 +695,10 @@ func execC24(c c24Case) vkit.Result {
 	cl := &c24Client{httpAddr: sut.HTTPAddr, hc: &http.Client{Timeout: c24ReqTimeout, Transport: tr}, conn: conn}
 	resps := make([]c24Resp, len(c.Reqs))
 	for i, r := range c.Reqs {
+		authMode.Store(r.Auth)
 		resps[i] = cl.do(i, r)
 	}
+	authMode.Store("")
 	conn.Close()
 	tr.CloseIdleConnections()
 	stoppedOK := sut.Stop()
@@ -665,6 +734,8 @@ func execC24(c c24Case) vkit.Result {
 		}
 	}
 
+	failedBefore := map[string]bool{} // key -> a request with this key was served while /1/auth failed
+	afterFailure := ""
 	for i, r := range c.Reqs {
 		rid := fmt.Sprintf("r%d", i)
 		resp := resps[i]
@@ -682,6 +753,26 @@ func execC24(c c24Case) vkit.Result {
 		if resp.Outcome == "timeout" || resp.Outcome == "transport-error" || inconclusive {
 			res.Class("inconclusive-timing")
 			continue
+		}
+		needsLookup := r.Key != "" && !c24IsLegacy(r.Key)
+		if r.Auth != "" {
+			// the lookup service is failing while this request is served: what
+			// refinery should do then (reject, forward unreplaced, answer 4xx/5xx) is
+			// not specified; only the global "never a blank key upstream" applies
+			res.Class("lookup-failing=" + r.Auth + "(not judged)")
+			if needsLookup {
+				failedBefore[r.Key] = true
+			}
+			continue
+		}
+		// healthy lookup service: whatever failed earlier, the key's real identity
+		// can be obtained now, so the static tables apply in full
+		if needsLookup && failedBefore[r.Key] {
+			res.Class("healthy-request-after-failed-lookup-of-same-key")
+			res.NonTrivial = true
+			afterFailure = "/after-failed-lookup"
+		} else {
+			afterFailure = ""
 		}
 		var teams []string
 		if s := up[rid]; s != nil {
@@ -712,7 +803,7 @@ func execC24(c c24Case) vkit.Result {
 			res.NonTrivial = true
 			res.Class("expect=reject")
 			if resp.Outcome == "accepted" {
-				res.Violate("C24/"+ep+"/unauthorised-key-accepted/"+how(), "%s", detail)
+				res.Violate("C24/"+ep+"/unauthorised-key-accepted/"+how()+afterFailure, "%s", detail)
 			} else if len(teams) > 0 {
 				res.Violate("C24/"+ep+"/rejected-but-forwarded/"+how(), "%s", detail)
 			} else if isGRPC := strings.HasSuffix(ep, "grpc"); (isGRPC && resp.Status != int(codes.Unauthenticated)) || (!isGRPC && resp.Status != http.StatusUnauthorized) {
@@ -744,13 +835,13 @@ func execC24(c c24Case) vkit.Result {
 		}
 		switch {
 		case resp.Outcome != "accepted":
-			res.Violate("C24/"+ep+"/authorised-key-rejected/"+how(), "expected upstream key %q: %s", want, detail)
+			res.Violate("C24/"+ep+"/authorised-key-rejected/"+how()+afterFailure, "expected upstream key %q: %s", want, detail)
 		case len(teams) == 0:
 			res.Violate("C24/"+ep+"/accepted-but-not-forwarded", "expected upstream key %q: %s", want, detail)
 		case len(teams) > 1:
 			res.Violate("C24/"+ep+"/forwarded-more-than-once", "expected upstream key %q: %s", want, detail)
 		case teams[0] != want:
-			res.Violate("C24/"+ep+"/wrong-upstream-key/"+how(), "expected upstream key %q: %s", want, detail)
+			res.Violate("C24/"+ep+"/wrong-upstream-key/"+how()+afterFailure, "expected upstream key %q: %s", want, detail)
 		}
 	}
 	// events nobody sent
@@ -828,5 +919,12 @@ func TestC24WriteTable(t *testing.T) {
 	}
 	if rows != c24TableDomainRows {
 		t.Fatalf("table has %d rows, want %d", rows, c24TableDomainRows)
+	}
+	for name, c := range c24HistoryCases() {
+		cj, _ := json.Marshal(c)
+		doc, _ := json.MarshalIndent(map[string]any{"property": "C24", "signature": "", "detail": "hand-kept lookup-failure history", "case": json.RawMessage(cj)}, "", " ")
+		if err := os.WriteFile(filepath.Join(dir, name+".json"), doc, 0o644); err != nil {
+			t.Fatal(err)
+		}
 	}
 }
